@@ -53,10 +53,13 @@ pub fn case_funnels(ctx: &mut Ctx, secs: &str, nanos: &str) {
 
 pub fn case_add(ctx: &mut Ctx, dt: &str, dur: &str) {
     let f: Vec<i64> = dt.split(' ').map(|x| x.parse().unwrap()).collect();
-    let d: u64 = dur.parse().unwrap();
+    // `<secs>` or `<secs>+<nanos>`: a broken-down time names a whole second, so the sub-second part of the duration is dropped
+    let (ds, dn) = dur.split_once('+').unwrap_or((dur, "0"));
+    let d: u64 = ds.parse().unwrap();
+    let n: u32 = dn.parse().unwrap();
     let obs = guard(move || {
         let start = DateTime { year: f[0], month: f[1], day: f[2], hour: f[3], min: f[4], sec: f[5] };
-        show(&(start + Duration::from_secs(d)))
+        show(&(start + Duration::new(d, n)))
     });
     ctx.emit("c16a", &[dt, dur], &obs);
 }
@@ -159,7 +162,8 @@ pub fn run(ctx: &mut Ctx) {
                 for du in ds {
                     idx2 += 1;
                     if ctx.mine(idx2) {
-                        case_add(ctx, &dt, &du.to_string());
+                        let sub = [0u32, 0, 1, 499_999_999, 500_000_000, 999_999_999][(idx2 % 6) as usize];
+                        case_add(ctx, &dt, &if sub == 0 { du.to_string() } else { format!("{du}+{sub}") });
                     }
                 }
             }
